@@ -14,6 +14,7 @@ import concurrent.futures as cf
 import json, os, re, shutil, subprocess, sys, time, glob
 from vlib import build as B
 from vlib import schema_gen_c02 as G
+from vlib import findings as F
 
 HERE = os.path.dirname(os.path.abspath(__file__))
 VERIF = os.path.dirname(HERE)
@@ -109,8 +110,8 @@ def canon_real(lines):
         if l.startswith("TYPE "):
             orc.append(re.sub(r" raw=\S+", "", l)); mdl.append(l); continue
         if l.startswith("INST "):
-            x = re.sub(r"/([EDRI])[dr]*", r"/\1", l)
-            orc.append(x); mdl.append(x); continue
+            orc.append(re.sub(r"/([EDRI])[dr]*", r"/\1", l))      # the property speaks about order only
+            mdl.append(l); continue                                  # the model also predicts _derive / _redefAttr
         if l.startswith("ACC "):
             acc.append(l); continue
         if l.startswith("SCHEMA "):
@@ -202,8 +203,11 @@ def oracle(R):
         return [("generator-fails", "exp2cxx fails on a schema check-express accepts: " + R.detail[-300:], None)]
     if R.status == "compile-fail":
         first = re.sub(r"^.*?error: ", "", R.detail.split("\n")[0])
-        sig = re.sub(r"[^A-Za-z0-9_:<>*()-]+", "_", first.replace("\u2018", "").replace("\u2019", ""))[:80]
-        return [("compile:" + sig, "emitted code does not compile: " + R.detail[:500], None)]
+        if re.search(r"type/Sdai\w+\.cc:.*has no member named .\w+_\W", R.detail.split("\n")[0]):
+            sig = "select-calls-missing-accessor"          # names vary with the schema: classify
+        else:
+            sig = re.sub(r"[^A-Za-z0-9_:<>*()-]+", "_", first.replace("\u2018", "").replace("\u2019", ""))[:80]
+        return [("compile:" + sig, "emitted code does not compile: " + R.detail[:500], ("shrink", None))]
     orc, _, acc = canon_real(R.real)
     probs = []
     spec = s.spec_lines()
@@ -336,7 +340,15 @@ def report(ctx, b, model_exe, R, label):
                 continue
             seen.add(key)
             s2, R2 = R.schema, R
-            if decl:   # minimise: the declaration with what it mentions
+            if F.lookup(ctx.pid, key):
+                decl = None            # a listed finding: no need to minimise it again
+            if decl and decl[0] == "shrink":
+                s2, R2 = shrink_schema(ctx, b, model_exe, R.schema, key)
+                if R2 is None:
+                    s2, R2 = R.schema, R
+                else:
+                    what = next(w for k, w, _ in oracle(R2) if k == key)
+            elif decl:   # minimise: the declaration with what it mentions
                 cand = R.schema.decl_closure(*decl)
                 if len(cand.types) + len(cand.entities) < len(R.schema.types) + len(R.schema.entities):
                     for e in cand.entities:
@@ -358,6 +370,85 @@ def report(ctx, b, model_exe, R, label):
         ctx.broken.append(("model driver m_c02", R.detail))
         return "correspondence"
     return None
+
+
+def without(s, kind, name):
+    """schema without one declaration (and without everything that mentions it), or without one attribute"""
+    import copy
+    t = G.Schema(s.name)
+    t.types, t.entities = copy.deepcopy(s.types), copy.deepcopy(s.entities)
+    if kind == "attr":
+        en, an = name
+        e = t.Ent(en)
+        e["attrs"] = [a for a in e["attrs"] if a["name"] != an]
+        # redeclarations / inverse partners of the removed attribute go too
+        for x in t.entities:
+            x["attrs"] = [a for a in x["attrs"] if not (a["name"] == an and a["redecl"]) and not (a.get("inv") == an and a["kind"] == "I")]
+        return t
+    dead_t, dead_e = set(), set()
+    (dead_t if kind == "type" else dead_e).add(name)
+
+    def mentions(tr):
+        if tr[0] == "N":
+            return tr[1] in dead_t
+        if tr[0] == "E":
+            return tr[1] in dead_e
+        if tr[0] == "A":
+            return mentions(tr[6])
+        return False
+    changed = True
+    while changed:
+        changed = False
+        for x in t.types:
+            if x["name"] in dead_t:
+                continue
+            b = x["body"]
+            if b[0] == "alias" and mentions(b[1]):
+                dead_t.add(x["name"]); changed = True
+            elif b[0] == "select":
+                ms = [m for m in b[1] if not mentions(m)]
+                if not ms:
+                    dead_t.add(x["name"]); changed = True
+                elif len(ms) != len(b[1]):
+                    x["body"] = ("select", ms); changed = True
+        for e in t.entities:
+            if e["name"] in dead_e:
+                continue
+            if any(sup in dead_e for sup in e["supers"]):
+                dead_e.add(e["name"]); changed = True
+                continue
+            keep = [a for a in e["attrs"] if not mentions(a["type"]) and not (a["redecl"] and a["redecl"] in dead_e)]
+            if len(keep) != len(e["attrs"]):
+                e["attrs"] = keep; changed = True
+    t.types = [x for x in t.types if x["name"] not in dead_t]
+    t.entities = [e for e in t.entities if e["name"] not in dead_e]
+    return t
+
+
+def shrink_schema(ctx, b, model_exe, s, key, rounds=12):
+    """greedy one-at-a-time removal (declarations, then attributes) while the oracle still reports `key`"""
+    best, bestR = s, None
+    for rnd in range(rounds):
+        cands = [("entity", e["name"]) for e in best.entities] + [("type", t["name"]) for t in best.types]
+        cands += [("attr", (e["name"], a["name"])) for e in best.entities for a in e["attrs"] if not a["redecl"]]
+        trial = []
+        for c in cands:
+            t = without(best, *c)
+            if t.entities and (len(t.entities), len(t.types), sum(len(e["attrs"]) for e in t.entities)) < \
+                    (len(best.entities), len(best.types), sum(len(e["attrs"]) for e in best.entities)) or \
+                    (t.entities and len(t.types) < len(best.types)):
+                trial.append(t)
+        if not trial:
+            break
+        with cf.ThreadPoolExecutor(max_workers=14) as ex:
+            rs = list(ex.map(lambda it: run_one(b, model_exe, it[1], os.path.join(ctx.work, f"shr-{rnd}-{it[0]}")), enumerate(trial)))
+        ok = [(t, r) for t, r in zip(trial, rs) if r.status != "invalid" and any(k == key for k, _, _ in oracle(r))]
+        for i in range(len(trial)):
+            shutil.rmtree(os.path.join(ctx.work, f"shr-{rnd}-{i}"), ignore_errors=True)
+        if not ok:
+            break
+        best, bestR = min(ok, key=lambda p: (len(p[0].entities) + len(p[0].types), sum(len(e["attrs"]) for e in p[0].entities)))
+    return best, bestR
 
 
 def run_batch(ctx, b, model_exe, items, label):
